@@ -86,3 +86,37 @@ Theorem C15_empty_literal_disagrees :
   mout t_empty_lit ctx_new = Some (B "N"%string, None) /\ rout t_empty_lit ctx_new = (B "Y"%string, SNone).
 Proof. exact F6_empty_literal_assignment. Qed.
 Print Assumptions C15_empty_literal_disagrees.
+
+(* ---- the ok flag of a ctx assignment ---- *)
+
+(* a non-literal assignment with an ok variable whose source and modifier chain evaluate: the ok
+   variable receives "the value is not void" (not nil, not an empty string / byte value); when the
+   value is void nothing else is assigned: every other variable, the target included, is untouched *)
+Theorem C15_ok_flag_iff_nonempty :
+  forall flits lookup budget inc var src ok ins mods c w c1 v c2 v2,
+    ok <> [] ->
+    ctx_get (set_cerr None c) src = (c1, v) -> cerr c1 = None ->
+    run_mods (w_n w) c1 mods v = ChOk c2 v2 -> cerr c2 = None ->
+    exists c',
+      write_node flits lookup budget inc (NCtx var src ok ins false mods) c w = Out c' w None /\
+      (var <> ok \/ is_void v2 = true ->
+       exists s, find_var ok (vars c') = Some s /\ s_val s = VBool (negb (is_void v2)) /\ s_static s = true /\
+                 var_value s [] = VBool (negb (is_void v2))) /\
+      (is_void v2 = true -> forall k, k <> ok -> find_var k (vars c') = find_var k (vars c)).
+Proof. exact ctx_ok_flag. Qed.
+Print Assumptions C15_ok_flag_iff_nonempty.
+
+(* the reference side: the same two assignments *)
+Theorem C15_ref_ok_flag : forall flits rlookup budget rinc var src ok mods e v v2,
+  env_get e src = Some v -> apply_mods e mods v = ChV v2 ->
+  ref_eval flits rlookup budget rinc (ACtx var src ok false mods) e =
+  (let e1 := match ok with [] => e | _ :: _ => env_set ok (VBool (negb (is_void v2))) true e end in
+   ([], if is_void v2 then e1 else env_set var v2 true e1, SNone)).
+Proof. exact ref_ctx_ok_flag. Qed.
+Print Assumptions C15_ref_ok_flag.
+
+From DT Require Import Proofs.RefineMain.
+Example C15_void_source_example :
+  forallb (wf_supported true) t_void_source = true /\
+  mout t_void_source c_void = Some (B "prefalse"%string, None) /\ rout t_void_source c_void = (B "prefalse"%string, SNone).
+Proof. exact void_source_assigns_nothing. Qed.
